@@ -108,6 +108,10 @@ class Env:
                     self.names[p["local"]] = sexpr(st["init"], self)
 
 
+STRIP_METHODS = {"clone", "as_ref", "to_owned", "into", "as_mut", "borrow", "to_vec", "into_iter", "iter", "copied", "cloned"}
+STRIP_FUNCS = {"mk_rc", "mk_box"}
+
+
 def sexpr(n, env=None, depth=0):
     """Canonical S-expression of an expression: resolved callees, provenance names for locals."""
     if n is None:
@@ -131,9 +135,16 @@ def sexpr(n, env=None, depth=0):
         return "(%s %s)" % (n["op"], sexpr(n["e"], env, depth + 1))
     if k == "Binary":
         return "(%s %s %s)" % (n["op"], sexpr(n["a"], env, depth + 1), sexpr(n["b"], env, depth + 1))
+    strip = bool(getattr(env, "strip", False))
     if k == "MethodCall":
+        if strip and not n["args"] and n["name"] in STRIP_METHODS:
+            return sexpr(n["recv"], env, depth + 1)
         return "(%s %s)" % (n.get("fn") or n["name"], " ".join(sexpr(a, env, depth + 1) for a in [n["recv"]] + n["args"]))
     if k == "Call":
+        if strip and len(n["args"]) == 1:
+            c = H.callee(n) or ""
+            if c.split("::")[-1] in STRIP_FUNCS or c.endswith("Rc::<T>::new") or c.endswith("Box::<T>::new") or c.endswith("Arc::<T>::new"):
+                return sexpr(n["args"][0], env, depth + 1)
         return "(%s %s)" % (sexpr(n["f"], env, depth + 1), " ".join(sexpr(a, env, depth + 1) for a in n["args"]))
     if k == "Cast":
         return "(as %s %s->%s)" % (sexpr(n["e"], env, depth + 1), n.get("from"), n.get("ty"))
@@ -211,3 +222,53 @@ def scrut_is_param(m, hir, index):
         return False
     binds = H.pat_bindings(hir["params"][index]) if index < len(hir["params"]) else []
     return any(b["local"] == l[0] for b in binds)
+
+
+class ArmEnv(Env):
+    """Names every local of an arm by its provenance: pattern paths, destructuring lets, let-else, for-loops,
+    closure parameters and the patterns of nested matches (prefix = canonical scrutinee)."""
+
+    def absorb(self, node, rounds=2):
+        for _ in range(rounds):
+            for st in H.walk(node):
+                k = H.kind(st)
+                if k == "Let" and st.get("init") is not None:
+                    base = sexpr(st["init"], self)
+                    pat = st["pat"]
+                    if H.kind(pat) == "Bind" and pat.get("sub") is None:
+                        self.names[pat["local"]] = base
+                    else:
+                        for l, p in pat_paths(pat).items():
+                            self.names[l] = "%s/%s" % (base, p) if p else base
+                elif k == "LetExpr":
+                    base = sexpr(st["init"], self)
+                    for l, p in pat_paths(st["pat"]).items():
+                        self.names[l] = "%s/%s" % (base, p) if p else base
+                elif k == "Match" and H.is_for(st):
+                    pat, it, body = H.for_parts(st)
+                    if pat is not None:
+                        base = "(each %s)" % sexpr(it, self)
+                        for l, p in pat_paths(pat).items():
+                            self.names[l] = "%s/%s" % (base, p) if p else base
+                elif k == "Match" and not st.get("src"):
+                    base = sexpr(st["scrut"], self)
+                    for a in st["arms"]:
+                        for l, p in pat_paths(strip_or(a["pat"])).items():
+                            self.names.setdefault(l, "%s/%s" % (base, p) if p else base)
+                elif k == "Closure":
+                    for i, p in enumerate(st["params"]):
+                        for l, pth in pat_paths(p, "C%d" % i).items():
+                            self.names.setdefault(l, "$" + pth)
+
+
+def clean(s):
+    """Drop clone / as_ref / to_owned / Rc noise from a canonical form."""
+    import re
+    prev = None
+    while prev != s:
+        prev = s
+        s = re.sub(r"\(<[^()]*? as core::clone::Clone>::clone ([^()]*|\([^()]*\))\)", r"\1", s)
+        s = re.sub(r"\(<alloc::rc::Rc<T, A> as core::convert::AsRef<T>>::as_ref ([^()]*|\([^()]*\))\)", r"\1", s)
+        s = re.sub(r"\(alloc::borrow::ToOwned::to_owned ([^()]*|\([^()]*\))\)", r"\1", s)
+        s = re.sub(r"\(<[^()]*? as alloc::borrow::ToOwned>::to_owned ([^()]*|\([^()]*\))\)", r"\1", s)
+    return s
